@@ -95,6 +95,11 @@ class _(Contract):
     def raises_direct(self, ex, a):
         return {}
 
+    def decreases(self, ex, a0, a1):
+        """Termination: every recursive call has a strictly smaller conditioning set (a strict-subset order on a finite set)."""
+        L = ex.L
+        return L.And(L.forall(1, lambda v: L.Implies(a1.C.has(v), a0.C.has(v))), L.exists(1, lambda v: L.And(a0.C.has(v), L.Not(a1.C.has(v)))))
+
     def post(self, ex, a, res):
         return {"type": z3.BoolVal(isinstance(res, VExpr))}
 
